@@ -59,6 +59,7 @@ def resOut : Res → String
   | .nan => "nan"
   | .arr xs => "a" ++ toString xs.length ++ ":" ++ ",".intercalate (xs.map unitsOut)
   | .undef => "undef"
+  | .bool b => if b then "b:true" else "b:false"
   | .throwType => "throw:TypeError"
   | .panic => "panic"
 
@@ -92,10 +93,18 @@ def devs (op : String) (how : String) (r0 : Recv) (rm : Recv) (args : List Val) 
       | _ => none
     else if coercible rm then stringAt value (number env a0).i
     else none
+  -- own-property observers: the unit of the computed index property named by the key, unless an expando has that name
+  let ownUnit : Option Nat :=
+    if op == "desc" || op == "isenum" || op == "define" then
+      let o := SObj.build value ((args.drop 1).map (toStr env))
+      if o.props.contains (toStr env a0) then none else o.indexUnit (toStr env a0)
+    else none
   let d : List (String × Bool) := [
     ("call_undefined_this", how == "C" && r0 == .val .undef),
     ("lone_surrogate", loneSurrogate r0),
-    ("charAt_surrogate", (op == "charAt" || op == "index") && optSurr posUnit),
+    ("charAt_surrogate", ((op == "charAt" || op == "index") && optSurr posUnit) || (op == "desc" && optSurr ownUnit)),
+    ("index_not_enumerable", (op == "desc" || op == "isenum") && ownUnit.isSome),
+    ("define_index_shadow", op == "define" && ownUnit.isSome && ownUnit != some 120),
     ("case_special", (op == "toLowerCase" && (U value).any (fun u => !isSurr u && Spec.lowerUnit u != [goLower u]))
         || (op == "toUpperCase" && (U value).any (fun u => !isSurr u && Spec.upperUnit u != [goUpper u]))),
     ("case_astral", (op == "toLowerCase" && (decodeRunes value).any (fun c => decide (c ≥ 0x10000) && goLower c != c))
@@ -127,6 +136,35 @@ def methods (op : String) : Option (Method × Method) :=
   | "index" => some (fun E r a => C09.index E r (argAt a 0), fun E r a => Spec.index E r (argAt a 0))
   | _ => none
 
+def lexLe : List Nat → List Nat → Bool
+  | [], _ => true
+  | _ :: _, [] => false
+  | a :: as, b :: bs => if a < b then true else if a > b then false else lexLe as bs
+
+def sortNames (xs : List (List Nat)) : List (List Nat) := xs.mergeSort lexLe
+
+def ownOps : List String := ["hasown", "in", "desc", "isenum", "define", "keys", "ownnames", "forin"]
+
+/-- own-property observers on a String object / primitive string (see Model `SObj`, Spec §15.5.5.2) -/
+def handleOwn (op : String) (how : String) (r0 : Recv) (args : List Val) : String :=
+  match (if how = "C" then some (callThis r0) else memberThis env r0) with
+  | none => "bad-op"
+  | some rm =>
+    let listOp := op == "keys" || op == "ownnames" || op == "forin"
+    let key := toStr env (argAt args 0)
+    let exps := ((if listOp then args else args.drop 1).map (toStr env))
+    let o := SObj.build (C09.thisString env rm) exps
+    let S := Spec.thisStringNoCheck env r0
+    let (m, sp) : Res × Res :=
+      if op == "hasown" then (.bool (o.hasOwn key), .bool (Spec.hasOwn S exps key))
+      else if op == "in" then (.bool (o.hasProperty key), .bool (Spec.hasOwn S exps key))
+      else if op == "desc" then (o.desc key, Spec.desc S exps key)
+      else if op == "isenum" then (.bool (o.isEnumerable key), .bool (Spec.isEnumerable S exps key))
+      else if op == "define" then (o.defineX key, Spec.defineX S exps key)
+      else if op == "ownnames" then (.arr (sortNames o.ownNames), .arr (sortNames (Spec.ownNames S exps)))
+      else (.arr (sortNames o.keys), .arr (sortNames (Spec.keys S exps)))
+    reply m sp (devs op how r0 rm args)
+
 def handle (ws : List String) : String :=
   match ws with
   | "fromCharCode" :: "-" :: as =>
@@ -135,6 +173,11 @@ def handle (ws : List String) : String :=
     | none => "bad-op"
   | op :: rt :: as =>
     let how := (rt.take 1).toString
+    if ownOps.contains op then
+      match recv? (rt.drop 1).toString, as.mapM val? with
+      | some r0, some args => handleOwn op how r0 args
+      | _, _ => "bad-op"
+    else
     match methods op, recv? (rt.drop 1).toString, as.mapM val? with
     | some (mf, sf), some r0, some args =>
       let nullish := r0 = .val .undef ∨ r0 = .val .null
